@@ -1004,6 +1004,8 @@ void TasmanianSparseGrid::mergeRefinement(){
 
 void TasmanianSparseGrid::beginConstruction(){
     if (empty()) throw std::runtime_error("ERROR: cannot start construction for an empty grid.");
+    if (isGlobal() and OneDimensionalMeta::isNonNested(getRule()))
+        throw std::runtime_error("ERROR: dynamic construction cannot be used with a Global grid with a non-nested rule.");
     if (not using_dynamic_construction){
         if (getNumLoaded() > 0) clearRefinement();
         using_dynamic_construction = true;
